@@ -22,15 +22,44 @@ pub fn run() {
         let nmsg: u32 = a.get("nmsg").map(|s| s.parse().unwrap()).unwrap_or(0);
         let clones: usize = a.get("clones").map(|s| s.parse().unwrap()).unwrap_or(1);
         let (tx, rx) = ipc::channel::<u32>().unwrap();
+        let mut polled_empty = true;
+        if how == "polled" {
+            // the receiver is polled (nothing there yet) by its first owner before it travels on
+            polled_empty = matches!(rx.try_recv(), Err(TryRecvError::Empty));
+        }
         for q in 0..nmsg {
             tx.send(q).unwrap();
+        }
+        let (mut tx, mut rx) = (tx, rx);
+        let mut spawned: Option<std::process::Child> = None;
+        if how == "polled" {
+            // ... then it is moved through a message (one hop); later traffic must reach the new owner, whatever receive it uses
+            let (ctx, crx) = ipc::channel::<ipc::IpcReceiver<u32>>().unwrap();
+            ctx.send(rx).unwrap();
+            rx = crx.recv().unwrap();
+        }
+        if how == "spawn" {
+            // the sender in use came out of a message; an unrelated child process is started while it is alive and outlives it
+            let (ctx, crx) = ipc::channel::<IpcSender<u32>>().unwrap();
+            ctx.send(tx).unwrap();
+            tx = crx.recv().unwrap();
+            spawned = std::process::Command::new("/bin/sleep").arg("4").spawn().ok();
         }
         let mut extra: Vec<IpcSender<u32>> = (1..clones).map(|_| tx.clone()).collect();
         let t0 = Instant::now();
         let mut child = 0;
         let mut carrier_keep = None;
         let dropper: Option<std::thread::JoinHandle<()>> = match how.as_str() {
-            "thread" => Some(std::thread::spawn(move || {
+            "polled" => Some(std::thread::spawn(move || {
+                // messages sent only after the transfer, with the new owner already waiting; then the last sender goes
+                for k in 0..clones as u32 {
+                    std::thread::sleep(Duration::from_micros(delay_us / 2 + 1));
+                    let _ = tx.send(nmsg + k);
+                }
+                std::thread::sleep(Duration::from_micros(delay_us));
+                drop(tx);
+            })),
+            "thread" | "spawn" => Some(std::thread::spawn(move || {
                 // the clones go first, one by one, the original last
                 for c in extra.drain(..) {
                     std::thread::sleep(Duration::from_micros(delay_us / 4 + 1));
@@ -97,7 +126,11 @@ pub fn run() {
             unsafe { libc::waitpid(child, &mut st, 0) };
         }
         drop(carrier_keep);
+        if let Some(mut c) = spawned {
+            let _ = c.kill();
+            let _ = c.wait();
+        }
         let (out, got, us) = res.unwrap_or(("Hang".to_string(), vec![], 0));
-        println!("{}", json!({"kind":"wake","id":id,"out":out,"got":got,"us":us}));
+        println!("{}", json!({"kind":"wake","id":id,"out":out,"got":got,"us":us,"polled_empty":polled_empty}));
     }
 }
